@@ -427,15 +427,89 @@ def apply_closure_reference(bodies_json, ref):
     return applied
 
 
+def function_signatures(bodies_json):
+    """{raw name: [prefix, [return type, parameter types...]]} of the hand-written free functions and
+    inherent methods (trait methods cannot be renamed locally)."""
+    out = {}
+    for b in bodies_json:
+        if b["kind"] not in ("Fn", "AssocFn") or b.get("def_exp") or b.get("impl_trait") or "{closure#" in b["name"] or "::promoted[" in b["name"]:
+            continue
+        if "/tests" in b["span"]["file"] or b["span"]["file"].endswith("tests.rs"):
+            continue
+        nm = b["name"]
+        out[nm] = [nm.rsplit("::", 1)[0] if "::" in nm else "", [b["locals"][i]["ty"] for i in range(0, b["arg_count"] + 1)]]
+    return out
+
+
+def apply_function_reference(bodies_json, ref):
+    """A private function that was merely renamed (same module / impl, same parameter and return types,
+    and the only unmatched function there with that signature) is read under its reference name."""
+    cur = function_signatures(bodies_json)
+    missing = [m for m in ref if m not in cur]
+    new = [n for n in cur if n not in ref]
+    pairs = {}
+    for m in missing:
+        c = [n for n in new if cur[n] == ref[m]]
+        if len(c) == 1:
+            pairs.setdefault(c[0], []).append(m)
+    ren = dict((n, ms[0]) for n, ms in pairs.items() if len(ms) == 1)
+    if not ren:
+        return []
+    olds = sorted(ren, key=len, reverse=True)
+
+    def fix(nm):
+        if not isinstance(nm, str):
+            return nm
+        for o in olds:
+            if nm == o or nm.startswith(o + "::{") or nm.startswith(o + "::promoted["):
+                return ren[o] + nm[len(o):]
+        return nm
+    for b in bodies_json:
+        for k in ("name", "root", "parent"):
+            if k in b:
+                b[k] = fix(b[k])
+        for blk in b["blocks"]:
+            for st in blk["stmts"]:
+                if st["s"] == "assign":
+                    rv = st["rv"]
+                    if rv["r"] == "agg" and rv.get("ak") == "closure":
+                        rv["closure"] = fix(rv["closure"])
+                    for key in ("a", "b"):
+                        o = rv.get(key)
+                        if isinstance(o, dict) and "fn" in o:
+                            for k in ("fn", "res", "fn_full"):
+                                if k in o:
+                                    o[k] = fix(o[k])
+                    for o in rv.get("ops", []) if isinstance(rv.get("ops"), list) else []:
+                        if isinstance(o, dict) and "fn" in o:
+                            for k in ("fn", "res", "fn_full"):
+                                if k in o:
+                                    o[k] = fix(o[k])
+            t = blk["term"]
+            if t["t"] == "call":
+                f = t["func"]
+                for k in ("fn", "res", "fn_full"):
+                    if k in f:
+                        f[k] = fix(f[k])
+                for a_ in t["args"]:
+                    if isinstance(a_, dict) and "fn" in a_:
+                        for k in ("fn", "res", "fn_full"):
+                            if k in a_:
+                                a_[k] = fix(a_[k])
+    return sorted(ren.items())
+
+
 class Facts:
     def __init__(self, path, meta=None):
         with open(path) as fh:
             self.j = json.load(fh)
         self.closure_aliases = []
+        self.function_aliases = []
         _ref_path = os.path.join(os.path.dirname(os.path.dirname(os.path.dirname(os.path.abspath(__file__)))), "reference_names.json")
         if os.path.exists(_ref_path):
             with open(_ref_path) as fh:
                 _ref = json.load(fh)
+            self.function_aliases = apply_function_reference(self.j["bodies"], _ref.get("functions", {}))
             self.closure_aliases = apply_closure_reference(self.j["bodies"], _ref.get("closures", {}))
         self.path = path
         self.meta = meta or {}
